@@ -12,6 +12,7 @@ mod miri;
 mod tsan;
 mod codec;
 mod checks_seq;
+mod fuzz;
 mod checks_seq2;
 mod checks_queue;
 mod hook;
